@@ -36,12 +36,12 @@ theorem witness_starts_with_ci_zip :
     specStartsWith (downcaseCp strokeMap (decodeLossy [0xE2, 0xB1, 0xA5]))
       (downcaseCp strokeMap (decodeLossy [0xC8, 0xBA, 0x78])) true = false := by decide
 
-/-- `affix_ci:D_starts_with_panic`: case-insensitive `starts_with` on a substring that is not
-    UTF-8 panics (`utf8_width` 0 → `from_utf8(&[])` → `.chars().next().unwrap()`), and so does a
-    truncated multi-byte sequence (slice index out of range). -/
+/-- `affix_ci:D_starts_with_panic` (repaired): case-insensitive `starts_with` on a substring that
+    is not UTF-8 (a lone continuation byte, a truncated multi-byte sequence) used to panic; it is
+    now simply `false`. -/
 theorem witness_starts_with_ci_panic :
-    startsWith CaseMap.ascii (.bytes [0x41]) (.bytes [0x80]) (some (.bool false)) = .panic ∧
-    startsWith CaseMap.ascii (.bytes [0x41, 0x42]) (.bytes [0xE2, 0x82]) (some (.bool false)) = .panic := by decide
+    startsWith CaseMap.ascii (.bytes [0x41]) (.bytes [0x80]) (some (.bool false)) = .ok (.bool false) ∧
+    startsWith CaseMap.ascii (.bytes [0x41, 0x42]) (.bytes [0xE2, 0x82]) (some (.bool false)) = .ok (.bool false) := by decide
 
 /-- the casing laws are not vacuous beyond ASCII either: the observed table of `Ⱥ`/`ⱥ`. -/
 example : upcaseCp strokeMap (strokeMap.toUpper 0x2C65) = strokeMap.toUpper 0x2C65 := by decide
